@@ -80,7 +80,144 @@ Proof.
     - unfold text_len at 1. rewrite Ea, Elc, line_length_sum, Ets, sum_len_app. cbn [sum_len]. unfold text_len, zlen. rewrite app_length. lia. }
   rewrite Esel. rewrite upd_nth_last. repeat split.
   - exists ts, (text_set_cur (text_append t s) (text_len (text_append t s))). cbn [l_texts l_cur l_cursor]. repeat split.
-    rewrite line_length_sum. cbn [l_texts]. rewrite sum_len_app. cbn [sum_len]. unfold text_len at 2 3. cbn [text_set_cur t_text].
-    rewrite <- Elen2, line_length_sum. unfold l2. cbn [l_texts]. rewrite sum_len_app. cbn [sum_len]. unfold text_len. lia.
+    rewrite <- Elen2, !line_length_sum. unfold l2. cbn [l_texts]. rewrite !sum_len_app. reflexivity.
   - unfold line_text. cbn [l_texts]. rewrite Ets, !flat_map_app. cbn [flat_map text_set_cur t_text]. rewrite Ea, !app_nil_r, app_assoc. reflexivity.
+Qed.
+
+Lemma dget_dset_same {A} k (v : A) d : dget k (dset k v d) = Some v.
+Proof. induction d as [|[k' v'] d IH]; cbn; [now rewrite Z.eqb_refl|]. destruct (k =? k') eqn:E; cbn; [now rewrite Z.eqb_refl|now rewrite E]. Qed.
+(* moving the line cursor to the end of a row whose cursor is already there changes nothing but cursors *)
+Lemma line_set_cursor_end l : at_end l ->
+  at_end (line_set_cursor l (line_length l)) /\ line_text (line_set_cursor l (line_length l)) = line_text l /\
+  l_indent (line_set_cursor l (line_length l)) = l_indent l /\ l_row (line_set_cursor l (line_length l)) = l_row l /\
+  line_length (line_set_cursor l (line_length l)) = line_length l.
+Proof.
+  intros (ts & t & Ets & Ecur & Etc & Elc). unfold line_set_cursor. rewrite Z.ltb_irrefl.
+  assert (Esel : sel_text (l_texts l) 0 (line_length l) = Some (length ts, text_len t)).
+  { rewrite line_length_sum, Ets, sum_len_app. cbn [sum_len]. rewrite Z.add_0_r. apply sel_text_end. }
+  rewrite Esel, Ets, upd_nth_last. cbn [l_indent l_row]. repeat split.
+  - exists ts, (text_set_cur t (text_len t)). cbn [l_texts l_cur l_cursor]. repeat split.
+    rewrite !line_length_sum. cbn [l_texts]. rewrite Ets, !sum_len_app. reflexivity.
+  - unfold line_text. cbn [l_texts]. rewrite Ets, !flat_map_app. reflexivity.
+  - rewrite !line_length_sum. cbn [l_texts]. rewrite Ets, !sum_len_app. reflexivity.
+Qed.
+
+(* a caption whose cursor is at the end of the row it is writing *)
+Definition row_ready (p : para) : Prop :=
+  exists r l, p_cur p = Att r /\ dget r (p_lines p) = Some l /\ at_end l /\ l_row l = r /\
+              p_cursor p = (r, l_indent l + line_length l).
+Definition row_text (p : para) : text := line_text (cur_line p).
+
+Lemma append_text_ready p s : row_ready p -> s <> [] -> row_ready (append_text p s) /\ row_text (append_text p s) = row_text p ++ s.
+Proof.
+  intros (r & l & Hc & Hg & He & Hr & Hcur) Hs.
+  destruct (line_add_str_end l s He Hs) as (He1 & Ht1 & Hi1 & Hr1).
+  set (l1 := line_add_str l s) in *.
+  assert (Hlen1 : line_length l1 = line_length l + zlen s).
+  { rewrite !line_length_sum, !sum_len_flat. fold (line_text l1). fold (line_text l). rewrite Ht1. unfold zlen. rewrite app_length. lia. }
+  unfold append_text, upd_cur_line. rewrite Hc, Hg. fold l1.
+  unfold indent_cursor. cbn [p_cursor set_cursor set_plines fst snd]. rewrite Hcur. cbn [fst snd].
+  set (q1 := set_cursor (set_plines p (dset r l1 (p_lines p))) (r, l_indent l + line_length l + zlen s)).
+  assert (Ecl : cur_line q1 = l1).
+  { unfold cur_line. change (p_cur q1) with (p_cur p). change (p_lines q1) with (dset r l1 (p_lines p)). rewrite Hc, dget_dset_same. reflexivity. }
+  rewrite Ecl. assert (Hne : line_is_empty l1 = false).
+  { unfold line_is_empty. apply Z.eqb_neq. rewrite Hlen1. pose proof (sum_len_nonneg (l_texts l)). rewrite line_length_sum.
+    destruct s; [contradiction|]. unfold zlen. cbn [length]. lia. }
+  rewrite Hne. unfold update_line_cursor. rewrite Ecl. cbn [p_cursor q1 set_cursor snd].
+  replace (l_indent l + line_length l + zlen s - l_indent l1) with (line_length l1) by (rewrite Hi1, Hlen1; lia).
+  assert (Hnn : (line_length l1 <? 0) = false) by (apply Z.ltb_ge; rewrite line_length_sum; apply sum_len_nonneg).
+  rewrite Hnn. unfold upd_cur_line. cbn [p_cur q1 set_cursor set_plines p_lines]. rewrite Hc, dget_dset_same.
+  destruct (line_set_cursor_end l1 He1) as (He2 & Ht2 & Hi2 & Hr2 & Hl2).
+  subst q1. cbn [p_cur p_lines p_cursor set_plines set_cursor].
+  split.
+  - exists r, (line_set_cursor l1 (line_length l1)). cbn [p_cur p_lines p_cursor set_plines set_cursor].
+    split; [exact Hc|]. split; [apply dget_dset_same|]. split; [exact He2|]. split; [rewrite Hr2, Hr1; exact Hr|].
+    rewrite Hi2, Hl2, Hi1, Hlen1. f_equal. lia.
+  - unfold row_text, cur_line. cbn [p_cur p_lines set_plines set_cursor]. rewrite Hc, dget_dset_same, Hg, Ht2, Ht1. reflexivity.
+Qed.
+(* attributes and time stamps of the current text do not touch the characters *)
+Lemma upd_cur_text_ready p f : (forall t, t_text (f t) = t_text t /\ t_cur (f t) = t_cur t) -> row_ready p ->
+  row_ready (upd_cur_text p f) /\ row_text (upd_cur_text p f) = row_text p.
+Proof.
+  intros Hf (r & l & Hc & Hg & (ts & t & Ets & Ecur & Etc & Elc) & Hr & Hcur).
+  unfold upd_cur_text, upd_cur_line. rewrite Hc, Hg.
+  set (l1 := line_upd_cur_text l f).
+  assert (E1 : l_texts l1 = ts ++ [f t]) by (unfold l1, line_upd_cur_text; cbn; rewrite Ets, Ecur; apply upd_nth_last).
+  destruct (Hf t) as [Hft Hfc].
+  assert (Elen : line_length l1 = line_length l).
+  { rewrite !line_length_sum, E1, Ets, !sum_len_app. cbn [sum_len]. unfold text_len. rewrite Hft. reflexivity. }
+  split.
+  - exists r, l1. cbn [p_cur p_lines p_cursor set_plines]. split; [exact Hc|]. split; [apply dget_dset_same|]. split.
+    + exists ts, (f t). split; [exact E1|]. split; [exact Ecur|]. split; [unfold text_len in *; rewrite Hfc, Hft; exact Etc|].
+      rewrite Elen. exact Elc.
+    + split; [exact Hr|]. rewrite Elen. exact Hcur.
+  - unfold row_text, cur_line. cbn [p_cur p_lines set_plines]. rewrite Hc, dget_dset_same, Hg. unfold line_text. rewrite E1, Ets, !flat_map_app.
+    cbn [flat_map]. rewrite Hft. reflexivity.
+Qed.
+(* a new (empty) text element at the end of the row *)
+Lemma new_caption_text_ready p : row_ready p -> row_ready (new_caption_text p) /\ row_text (new_caption_text p) = row_text p.
+Proof.
+  intros (r & l & Hc & Hg & (ts & t & Ets & Ecur & Etc & Elc) & Hr & Hcur).
+  unfold new_caption_text, upd_cur_line. rewrite Hc, Hg.
+  set (l1 := line_add_obj l text_new).
+  assert (Elen : line_length l1 = line_length l).
+  { rewrite !line_length_sum. unfold l1, line_add_obj. cbn [l_texts]. rewrite sum_len_app. cbn. lia. }
+  split.
+  - exists r, l1. cbn [p_cur p_lines p_cursor set_plines]. split; [exact Hc|]. split; [apply dget_dset_same|]. split.
+    + exists (l_texts l), text_new. unfold l1, line_add_obj. cbn [l_texts l_cur l_cursor]. repeat split.
+      rewrite line_length_sum. cbn [l_texts]. induction (l_texts l ++ [text_new]); cbn; [reflexivity|]. now rewrite IHl0.
+    + split; [exact Hr|]. rewrite Elen. exact Hcur.
+  - unfold row_text, cur_line. cbn [p_cur p_lines set_plines]. rewrite Hc, dget_dset_same, Hg. unfold line_text, l1, line_add_obj. cbn [l_texts].
+    rewrite flat_map_app. cbn. now rewrite app_nil_r.
+Qed.
+Lemma style_cur_text_ready c p : row_ready p -> row_ready (style_cur_text c p) /\ row_text (style_cur_text c p) = row_text p.
+Proof. intros H. unfold style_cur_text. apply upd_cur_text_ready; [intros; split; reflexivity|exact H]. Qed.
+Lemma set_begin_cur_ready p t : row_ready p ->
+  row_ready (upd_cur_text p (fun x => text_set_begin x t)) /\ row_text (upd_cur_text p (fun x => text_set_begin x t)) = row_text p.
+Proof. intros H. apply upd_cur_text_ready; [intros; split; reflexivity|exact H]. Qed.
+
+(* the caption characters are written to, by style *)
+Definition target (c : ctx) : option para := if c_style c =? sPopOn then Some (c_buf c) else c_act c.
+Definition target_ready (c : ctx) : Prop := match target c with Some p => row_ready p | None => False end.
+Definition target_text (c : ctx) : text := match target c with Some p => row_text p | None => [] end.
+Lemma target_sync_acur c : target (sync_acur c) = target c.
+Proof. unfold sync_acur, target. destruct (c_act c); reflexivity. Qed.
+
+(* text accumulates as received: in pop-on style (buffer), in roll-up style and in paint-on style (displayed caption,
+   paint-on styled), a run of characters is appended to the row being written *)
+Lemma text_accumulates c word :
+  (c_style c = sPopOn \/ c_style c = sRollUp \/ (c_style c = sPaintOn /\ exists a, c_act c = Some a /\ p_style a = sPaintOn)) ->
+  target_ready c -> word <> [] ->
+  target_ready (process_text c word) /\ target_text (process_text c word) = target_text c ++ word.
+Proof.
+  intros Hst Hr Hw. unfold target_ready, target_text in *. unfold process_text. rewrite target_sync_acur.
+  destruct Hst as [Hs|[Hs|(Hs & a & Ha & Hpa)]]; unfold target in *; rewrite Hs in *; cbn [Z.eqb sPopOn sRollUp sPaintOn Pos.eqb] in *.
+  - cbn [c_style c_buf with_buf]. rewrite Hs. cbn [Z.eqb sPopOn Pos.eqb].
+    destruct (append_text_ready (c_buf c) word Hr Hw) as [H1 H2].
+    destruct (style_cur_text_ready c _ H1) as [H3 H4]. split; [exact H3|]. rewrite H4, H2. reflexivity.
+  - destruct (c_act c) as [a|] eqn:Ea; [|contradiction].
+    unfold upd_act. rewrite Ea. cbn [c_style c_act with_act]. rewrite Hs. cbn [Z.eqb sPopOn sRollUp Pos.eqb].
+    destruct (append_text_ready a word Hr Hw) as [H1 H2].
+    destruct (style_cur_text_ready c _ H1) as [H3 H4]. split; [exact H3|]. rewrite H4, H2. reflexivity.
+  - rewrite Ha in *. cbn [negb]. rewrite Hpa. cbn [Z.eqb sPaintOn Pos.eqb negb].
+    destruct (starts_with_space word).
+    + unfold upd_act. cbn [c_act with_act]. rewrite Ha. cbn [c_act with_act c_style]. rewrite Hs. cbn [Z.eqb sPopOn sPaintOn Pos.eqb].
+      destruct (new_caption_text_ready a Hr) as [H1 H2]. destruct (append_text_ready _ word H1 Hw) as [H3 H4].
+      destruct (set_begin_cur_ready _ (c_tc c) H3) as [H5 H6].
+      match goal with |- context [style_cur_text ?cc ?pp] => destruct (style_cur_text_ready cc pp H5) as [H7 H8] end.
+      split; [exact H7|]. rewrite H8, H6, H4, H2. reflexivity.
+    + destruct (ends_with_space word).
+      * unfold upd_act at 3. rewrite Ha. cbn [c_act with_act]. cbn [p_style].
+        destruct (append_text_ready a word Hr Hw) as [H1 H2].
+        assert (Eps : p_style (append_text a word) = sPaintOn).
+        { unfold append_text, indent_cursor, upd_cur_line, update_line_cursor, upd_cur_line.
+          repeat match goal with |- context [match ?x with _ => _ end] => destruct x end; cbn; exact Hpa. }
+        rewrite Eps. cbn [Z.eqb sPaintOn Pos.eqb negb]. unfold upd_act. cbn [c_act with_act]. cbn [c_style]. rewrite Hs. cbn [Z.eqb sPopOn sPaintOn Pos.eqb].
+        destruct (new_caption_text_ready _ H1) as [H3 H4]. destruct (set_begin_cur_ready _ (c_tc c) H3) as [H5 H6].
+        match goal with |- context [style_cur_text ?cc ?pp] => destruct (style_cur_text_ready cc pp H5) as [H7 H8] end.
+        split; [exact H7|]. rewrite H8, H6, H4, H2. reflexivity.
+      * unfold upd_act. rewrite Ha. cbn [c_act with_act c_style]. rewrite Hs. cbn [Z.eqb sPopOn sPaintOn Pos.eqb].
+        destruct (append_text_ready a word Hr Hw) as [H1 H2].
+        match goal with |- context [style_cur_text ?cc ?pp] => destruct (style_cur_text_ready cc pp H1) as [H7 H8] end.
+        split; [exact H7|]. rewrite H8, H2. reflexivity.
 Qed.
